@@ -43,7 +43,7 @@ var (
 
 func buildSiftool() (string, string) {
 	siftoolOnce.Do(func() {
-		dir, err := os.MkdirTemp("", "siftool-bin")
+		dir, err := os.MkdirTemp(scratchRoot, "siftool-bin") // inside the run's scratch: removed with it
 		if err != nil {
 			siftoolErr = err.Error()
 			return
